@@ -28,12 +28,15 @@ ASSUMPTIONS = [
 TRUSTED_BASE = ["Python oracle lib/props/c08.py + numlib.py (fractions.Fraction arithmetic)"]
 MANIFEST = dict(
     text="Coq theorems over a hand-written model of number.rs and of the num-rational/num-integer algorithms it calls on "
-         "Ratio<i32> (explicit i32 overflow outcomes per build profile): every exact result of + - * / abs floor ceiling "
-         "truncate numerator denominator expt equals the true rational value and is well-formed; an inexact result occurs "
-         "only outside a decidable fallback class or when the true value is not representable; quotient/remainder/modulo "
-         "are the truncating/flooring results; Ratio32 operations against Q; refutation witnesses for the recorded "
-         "defect classes. Tied to /repo by all pairs of the property's palette in every representation, through the "
-         "Number API and through Vm::eval, debug and release builds, 3-way (impl / extracted model / vm_compute).",
+         "Ratio<i32> (explicit i32 overflow outcomes per build profile): the Stein gcd port equals Z.gcd, reduce and "
+         "checked add/sub/mul return None or the reduced exact value in Q; for all 9 exact representation pairs and both "
+         "profiles an exact result of + - * equals the true value and is well-formed, and + - * never panic; quotient and "
+         "remainder of exact integers (Fixnum/BigInt/n/1, incl. i64::MIN by -1) are the truncating results; refutation "
+         "witnesses for the three recorded defect classes. Stated but OPEN (oracle-checked on every run only): / , "
+         "inexact-only-if-unrepresentable, the 2^-50 error bound, modulo, abs floor ceiling truncate numerator denominator "
+         "expt. Tied to /repo by all pairs of the property's palette in every representation, through the Number API and "
+         "through Vm::eval, debug and release builds, 3-way (impl / extracted model / vm_compute), with an independent "
+         "exact-rational oracle for every clause of the property incl. representation independence.",
     design="DESIGN.md section 5 C08",
     note="Trusted: Coq kernel, the hand-written model (tied by differential correspondence), num-bigint as Z, rustc integer "
          "semantics per profile, extraction+OCaml driver (cross-checked in-kernel), Rust harness, Python oracle. Axioms: the "
